@@ -35,6 +35,7 @@ type Thread struct {
 	stack           []value.Value     // Value stack
 	callFrames      []CallFrame       // Call stack
 	errStackTrace   *value.StackTrace // The most recent error stack trace
+	errStackTraceOf value.Value       // The error that the most recent error stack trace belongs to
 	threadPool      *ThreadPool
 	Aborter         *value.Aborter
 	state           state
@@ -193,9 +194,21 @@ func (vm *Thread) InspectCallStack() {
 }
 
 func (vm *Thread) throwIfErr(err value.Value) {
-	if !err.IsUndefined() {
-		vm.throw(err)
+	if err.IsUndefined() {
+		return
 	}
+
+	if stackTrace := vm.errStackTrace; stackTrace != nil && vm.errStackTraceOf == err {
+		// the error stopped a nested run started by the native method (a closure it called,
+		// a bytecode `next` or `to_string`): the trace recorded there has the frames
+		// that threw it, a trace built here would end at the call of the native method
+		vm.errStackTrace = nil
+		vm.errStackTraceOf = value.Undefined
+		vm.rethrow(err, stackTrace)
+		return
+	}
+
+	vm.throw(err)
 }
 
 func (vm *Thread) callBytecodePromise(promise *Promise) {
@@ -1587,6 +1600,7 @@ func (vm *Thread) PrintError() {
 func (vm *Thread) ResetError() {
 	vm.state = idleState
 	vm.errStackTrace = nil
+	vm.errStackTraceOf = value.Undefined
 }
 
 func (vm *Thread) GetStackTrace() *value.StackTrace {
@@ -4042,6 +4056,7 @@ func (vm *Thread) rethrow(err value.Value, stackTrace *value.StackTrace) {
 		if vm.cfp == uintptr(unsafe.Pointer(&vm.callFrames[0])) || vm.lastCallFrame().stopVM {
 			vm.state = errorState
 			vm.errStackTrace = stackTrace
+			vm.errStackTraceOf = err
 			vm.push(err)
 			panic(stopVM{})
 		}
@@ -4057,6 +4072,7 @@ func (vm *Thread) throwNoCatch(err value.Value) {
 func (vm *Thread) rethrowNoCatch(err value.Value, stackTrace *value.StackTrace) {
 	vm.state = errorState
 	vm.errStackTrace = stackTrace
+	vm.errStackTraceOf = err
 	vm.push(err)
 	vm.restoreLastFrame()
 }
